@@ -13,7 +13,7 @@ inductive Entry where
   | subj (sj : Subj) (id : Nat)
   | bsubj (b : BSubj) (id : Nat)
   | rsubj (r : RSubj) (id : Nat)
-  | asubj (sj : Subj) (id : Nat)
+  | asubj (a : ASubj) (id : Nat)
   | publish (src : Nat) (sj : Subj) (id : Nat) (conns : Nat)   -- conns: cell holding the list of handles
   | refc (sj : Subj) (id : Nat)                                -- ref_count / replay connectable
   | rawhot (c : Nat) (id : Nat)                                 -- user-written hot source: cell = observers it was given
@@ -29,7 +29,7 @@ def Entry.obsvId : Entry → Nat
   | .publish _ _ id _ => id | .refc _ id => id | .counter c => c | .rawhot _ id => id
 
 def Entry.subject? : Entry → Option Subj
-  | .subj sj _ => some sj | .bsubj b _ => some b.inner | .rsubj r _ => some r.inner | .asubj sj _ => some sj
+  | .subj sj _ => some sj | .bsubj b _ => some b.inner | .rsubj r _ => some r.inner | .asubj a _ => some a.inner
   | .publish _ sj _ _ => some sj | .refc sj _ => some sj
   | _ => none
 
@@ -125,14 +125,14 @@ def parseSubjAction (env : Env) : Sexp → Option (Nat → Prog)
       let d ← parseData v
       match env.find name with
       | some (.subj sj _) => some fun _ => sj.next d
-      | some (.asubj sj _) => some fun _ => sj.next d
+      | some (.asubj a _) => some fun _ => a.next d
       | some (.bsubj b _) => some fun _ => b.next d
       | some (.rsubj r _) => some fun _ => r.next d
       | _ => none
   | .list [.atom "hcomplete", .atom name] =>
       match env.find name with
       | some (.subj sj _) => some fun _ => sj.complete
-      | some (.asubj sj _) => some fun _ => sj.complete
+      | some (.asubj a _) => some fun _ => a.complete
       | some (.bsubj b _) => some fun _ => b.complete
       | some (.rsubj r _) => some fun _ => r.complete
       | _ => none
@@ -140,7 +140,7 @@ def parseSubjAction (env : Env) : Sexp → Option (Nat → Prog)
       let e ← e.asNat
       match env.find name with
       | some (.subj sj _) => some fun _ => sj.error e
-      | some (.asubj sj _) => some fun _ => sj.error e
+      | some (.asubj a _) => some fun _ => a.error e
       | some (.bsubj b _) => some fun _ => b.error e
       | some (.rsubj r _) => some fun _ => r.error e
       | _ => none
@@ -325,8 +325,11 @@ def stepProg (env : Env) (w : World) : Sexp → Option (World × Env × Prog)
       some (w, (name, .subj sj id) :: env, .done)
   | .list [.atom "subject", .atom name, .atom "async"] =>
       let (w, sj) := w.allocSubj
-      let (w, id) := w.allocObsv (asyncObservable sj)
-      some (w, (name, .asubj sj id) :: env, .done)
+      let (w, li) := w.allocCell .lnil
+      let (w, en) := w.allocCell .lnil
+      let a : ASubj := ⟨sj, li, en⟩
+      let (w, id) := w.allocObsv a.observable
+      some (w, (name, .asubj a id) :: env, .done)
   | .list [.atom "subject", .atom name, .atom "behavior", v] => do
       let d ← parseData v
       let (w, sj) := w.allocSubj
